@@ -84,21 +84,12 @@ def decode(j):
     raise ValueError(t)
 
 
-# ------------------------------------------------------------------------------------------ guards (hand table)
-
-R = lambda lo, hi, ls=False, hs=False: ["range", lo, hi, ls, hs]  # noqa: E731
-A = lambda lo, s=True: ["above", lo, s]  # noqa: E731
-GEO = {"row": A(0), "col": A(0), "total_thickness": R(0, 10000), "pixel_vert_size": R(0, 1000),
-       "pixel_horz_size": R(0, 1000), "pixel_scale": R(0, 1000)}
-GUARDS = {
-    "Environment": {"temperature": R(0, 1000, True, False), "wavelength": A(0)},
-    "Characteristics": {"quantum_efficiency": R(0, 1), "charge_to_volt_conversion": R(0, 100),
-                        "pre_amplification": R(0, 10000), "full_well_capacity": R(0, 10 ** 7)},
-    "APDCharacteristics": {"quantum_efficiency": R(0, 1), "avalanche_gain": R(1, 1000),
-                           "adc_bit_resolution": R(4, 64), "full_well_capacity": R(0, 10 ** 7)},
-}
-for _g in ("Geometry", "CCDGeometry", "CMOSGeometry", "MKIDGeometry", "APDGeometry"):
-    GUARDS[_g] = GEO
+# ------------------------------------------------------------------------------------------ guards
+# The range guard of a property setter is NOT stated here: the driver only names the class that defines the setter and
+# the property; the case files look the guard up in Gen_C08.src_setter_guards (regenerated from the source).
+GUARD_OWNER = {"Environment": "Environment", "Characteristics": "Characteristics", "APDCharacteristics": "APDCharacteristics",
+               "Geometry": "Geometry", "CCDGeometry": "Geometry", "CMOSGeometry": "Geometry", "MKIDGeometry": "Geometry",
+               "APDGeometry": "Geometry"}
 
 # classes whose property values are read for the snapshot (all their properties but these)
 READ_ALL = {"Geometry", "CCDGeometry", "CMOSGeometry", "MKIDGeometry", "APDGeometry", "Environment",
@@ -144,7 +135,7 @@ def tree_of(o, keep: set, depth=0):
         attr = inspect.getattr_static(type(o), n)
         if isinstance(attr, property):
             settable = attr.fset is not None
-            guard = GUARDS.get(cls, {}).get(n) if settable else None
+            guard = ["ref", GUARD_OWNER[cls], n] if settable and cls in GUARD_OWNER else None
             read = (cls in READ_ALL and n not in NO_READ and (settable or n in STORED_RO)) or \
                    (cls in READ_SOME and (n in groups if READ_SOME[cls] is None else n in READ_SOME[cls]))
             if read:
